@@ -11,11 +11,11 @@ pub struct Mut {
 
 impl Mut {
     pub(crate) fn string(&self, depth: u8) -> String {
-        format!(
-            "mut {} {}",
-            self.var_type,
-            self.variable.read().unwrap().debug(depth)
-        )
+        // the content is taken out of the lock before it is rendered: a cell may contain itself,
+        // and a second read of the lock this thread already holds waits for ever behind a writer
+        // that has queued up in between
+        let content = self.variable.read().unwrap().clone();
+        format!("mut {} {}", self.var_type, content.debug(depth))
     }
 }
 
